@@ -105,6 +105,15 @@ FinOf(fin, j, rest) ==
     [] fin = "nth"  -> IF j < Len(rest)
                        THEN [some |-> "item", skipped |-> SubSeq(rest, 1, j), taken |-> <<rest[j + 1]>>, left |-> SubSeq(rest, j + 2, Len(rest))]
                        ELSE [some |-> "none", skipped |-> rest, taken |-> <<>>, left |-> <<>>]
+    \* find(pred) with the predicate true at index j is nth(j); any / all / position short-circuit at
+    \* index j (they consume j + 1 items silently), or run through everything when j is beyond the end
+    [] fin = "find" -> IF j < Len(rest)
+                       THEN [some |-> "item", skipped |-> SubSeq(rest, 1, j), taken |-> <<rest[j + 1]>>, left |-> SubSeq(rest, j + 2, Len(rest))]
+                       ELSE [some |-> "none", skipped |-> rest, taken |-> <<>>, left |-> <<>>]
+    [] fin \in {"any", "all", "position"} ->
+                       IF j < Len(rest)
+                       THEN [some |-> "hit", skipped |-> SubSeq(rest, 1, j + 1), taken |-> <<>>, left |-> SubSeq(rest, j + 2, Len(rest))]
+                       ELSE [some |-> "miss", skipped |-> rest, taken |-> <<>>, left |-> <<>>]
     [] fin = "last" -> IF rest # <<>>
                        THEN [some |-> "item", skipped |-> SubSeq(rest, 1, Len(rest) - 1), taken |-> <<rest[Len(rest)]>>, left |-> <<>>]
                        ELSE [some |-> "none", skipped |-> <<>>, taken |-> <<>>, left |-> <<>>]
